@@ -28,7 +28,7 @@ ASSUMPTIONS = [
     "reference B6 (DESIGN.md Appendix B6): flags, delegation index and bounds as functions of content",
     "flags and the delegation index are read from the committed version object (version.nodes[*].flags, version.delegations)",
 ]
-REQUIRED = ["mon.big_delegation_index_drills", "mon.abandoned_transactions", "mon.held_reader_version_rechecked", "mon.histories_in_another_class", "mon.histories_with_other_name_spelling", "mon.histories_with_multi_operation_transactions", "mon.replacement_transactions", "mon.flags_from_content", "mon.delegation_index", "mon.iteration_order", "mon.bounds_query", "mon.histories_with_nested_cuts", "mon.histories_with_cname_at_cut"]
+REQUIRED = ["mon.histories_with_mixed_letter_case", "mon.big_delegation_index_drills", "mon.abandoned_transactions", "mon.held_reader_version_rechecked", "mon.histories_in_another_class", "mon.histories_with_other_name_spelling", "mon.histories_with_multi_operation_transactions", "mon.replacement_transactions", "mon.flags_from_content", "mon.delegation_index", "mon.iteration_order", "mon.bounds_query", "mon.histories_with_nested_cuts", "mon.histories_with_cname_at_cut"]
 BUDGET = {"quick": 40.0, "thorough": 420.0}
 
 ORIGIN = (b"example", b"")
@@ -206,7 +206,7 @@ def check_version(ctx, z, ref, relativize, case, tag, rng, step_kind, held=None)
         rng.shuffle(qs)
         for q in qs[:25]:
             ctx.count("mon.bounds_query")
-            qn = dns.name.Name(q)
+            qn = dns.name.Name(tuple(l.upper() if rng.random() < 0.15 else l for l in q))
             if relativize and rng.random() < 0.5:
                 qn = qn.relativize(origin)
             try:
@@ -267,7 +267,8 @@ def history(ctx, rng):
     def spell(n):
         """the owner as the caller writes it: mostly the zone's own form, sometimes the other one (absolute in a relativized zone,
         relative in an absolute one); the library accepts both"""
-        nm = dns.name.Name(n)
+        # (letter case is not part of a name's identity: the same owner may be written Sub, sub or SUB at different times)
+        nm = dns.name.Name(tuple(l.upper() if mixed_case and rng.random() < 0.3 else l for l in n))
         native = nm.relativize(origin) if relativize else nm
         if rng.random() < 0.25:
             other = nm if relativize else nm.relativize(origin)
@@ -277,6 +278,9 @@ def history(ctx, rng):
         return native
 
     spellings = [0]
+    mixed_case = rng.random() < 0.4
+    if mixed_case:
+        ctx.count("mon.histories_with_mixed_letter_case")
     # name pool with structure: cuts, things beneath, siblings, ENTs
     pool = [ORIGIN]
     for _ in range(rng.randint(3, 7)):
@@ -304,7 +308,7 @@ def history(ctx, rng):
         if t == 6:
             lines.append(f"{RN.to_text(n)} 300 {rdclass} SOA ns.example. h.example. 1 2 3 4 5")
         else:
-            lines.append(f"{RN.to_text(n)} 300 {rdclass} {dns.rdatatype.to_text(t)} {rd_for(t, tagn, rdclass).to_text()}")
+            lines.append(f"{RN.to_text(tuple(l.upper() if mixed_case and rng.random() < 0.3 else l for l in n))} 300 {rdclass} {dns.rdatatype.to_text(t)} {rd_for(t, tagn, rdclass).to_text()}")
         ref.add(fold(n), t)
     text = "\n".join(lines) + "\n"
     # the origin is either given to the loader or learned from a $ORIGIN directive while loading
